@@ -126,6 +126,16 @@ def run(ctx):
         sdf_ok = name is not None and all(c not in name for c in '\n')
         if entry in ('from_sdf', 'dict_sdf') and not sdf_ok:
             entry = 'from_mol'
+        # a few directed combinations that random choice reaches only rarely
+        directed = {0: ('from_mol', ('absent',), True, False), 1: ('from_mol', ('none',), True, False), 2: ('from_mol', ('val', 3), True, False),
+                    3: ('from_mol', ('absent',), None, False), 4: ('dict_mol', ('val', 2), True, True), 5: ('from_mol', ('val', -1), True, True)}
+        if ci in directed:
+            entry, level_p, all_iters, save = directed[ci]
+            if name is None or not is_plain(name):
+                name = PG.mol_name(base)
+            if first in (0, -2, -5):
+                first = 2
+                first_param = 2
         fp_opts = rand_fp_opts(rng)
         cdir = os.path.join(ctx.workdir, 'e%d' % ci)
         os.makedirs(cdir)
